@@ -40,6 +40,19 @@ def run_gen(rep, groups, seed, n_validate):
     return res
 
 
+def run_selftest(rep, seed, n):
+    """the tracer's autograd evaluators against the real torch.autograd.grad on random programs (independent of torchsde)"""
+    from . import selftest_sym
+    try:
+        bad, evals = selftest_sym.run(seed, n)
+    except Exception as e:  # noqa
+        bad, evals = [dict(error=f"{type(e).__name__}: {e}")], 0
+    rep.ob('tie:tracer-selftest', f"{n} random autograd programs / {evals} outputs", not bad and evals > 0, json.dumps(bad[:1], default=str)[:600])
+    rep.cov['tracer_selftest'] = dict(programs=n, outputs_compared=evals,
+                                      rule="random tensor programs (arithmetic, reductions, bmm, detach, no_grad blocks, first- and "
+                                           "second-order torch.autograd.grad with create_graph / allow_unused): real torch vs the tracer")
+
+
 def run_proofs(rep, mods, extra_scan=()):
     """Build proof modules, record one obligation per theorem, audit axioms."""
     hits = core.forbidden_scan(list(mods) + list(extra_scan))
